@@ -100,7 +100,7 @@ func (w *watches) removePath(path string) ([]uint32, error) {
 	wds := make([]uint32, 0, 8)
 	wds = append(wds, wd)
 	for p, rwd := range w.path {
-		if strings.HasPrefix(p, path) {
+		if strings.HasPrefix(p, path+"/") {
 			delete(w.path, p)
 			delete(w.wd, rwd)
 			wds = append(wds, rwd)
@@ -512,12 +512,10 @@ func (w *inotify) handleEvent(inEvent *unix.InotifyEvent, buf *[65536]byte, offs
 			// available. Correctness first, performance second.
 			if ev.renamedFrom != "" {
 				for k, ww := range w.watches.wd {
-					if k == watch.wd || ww.path == ev.Name {
-						continue
-					}
-					if strings.HasPrefix(ww.path, ev.renamedFrom) {
-						ww.path = strings.Replace(ww.path, ev.renamedFrom, ev.Name, 1)
-						w.watches.wd[k] = ww
+					if ww.path == ev.renamedFrom || strings.HasPrefix(ww.path, ev.renamedFrom+"/") {
+						delete(w.watches.path, ww.path)
+						ww.path = ev.Name + ww.path[len(ev.renamedFrom):]
+						w.watches.path[ww.path] = k
 					}
 				}
 			}
